@@ -241,3 +241,40 @@ fn qaa(ax: &[f64], ang: f64, l: &'static str) -> ([f64; 4], &'static str) {
     let (s, c) = (ang * 0.5).sin_cos();
     ([ax[0] * s, ax[1] * s, ax[2] * s, c], l)
 }
+
+
+/// Build a vector from its visible lanes the ways users come by one.  For the padded SIMD type `Vec3A` the unused fourth
+/// lane is not determined by the visible lanes: `new`/`from_array`/`From<Vec3>` copy z into it, `from_vec4` keeps whatever
+/// the Vec4 held, arithmetic leaves the lane-wise result of the operands' fourth lanes.  The route is a deterministic
+/// function of the lane bits, so a given input always takes the same route but the routes are mixed across inputs.
+pub trait FromLanes<S, const N: usize>: Sized {
+    fn mk(a: [S; N]) -> Self;
+}
+macro_rules! plain_from_lanes {
+    ($($T:ident, $S:ty, $N:expr);*) => {$(
+        impl FromLanes<$S, $N> for glam::$T { fn mk(a: [$S; $N]) -> Self { glam::$T::from_array(a) } }
+    )*};
+}
+plain_from_lanes!(Vec2, f32, 2; Vec3, f32, 3; Vec4, f32, 4; DVec2, f64, 2; DVec3, f64, 3; DVec4, f64, 4);
+impl FromLanes<f32, 3> for glam::Vec3A {
+    fn mk(a: [f32; 3]) -> Self {
+        use glam::{Vec3A, Vec4};
+        let h = vcommon::rng::mix(a[0].to_bits() as u64 | ((a[1].to_bits() as u64) << 32), a[2].to_bits() as u64 ^ 0x9e37);
+        let junk = [0.0f32, 1.0, -7.5e3, f32::INFINITY, f32::NEG_INFINITY, f32::NAN, 1e-40, 3e38][((h >> 8) % 8) as usize];
+        // (a division would quiet a signalling NaN in a visible lane: NaN inputs only take the copying routes)
+        let route = if a.iter().any(|x| x.is_nan()) { h % 3 } else { h % 4 };
+        match route {
+            0 => Vec3A::from_array(a),
+            1 | 2 => Vec3A::from_vec4(Vec4::new(a[0], a[1], a[2], junk)),
+            _ => {
+                // computed: the quotient by (1, 1, 1 | 0) keeps the visible lanes bit-for-bit, the unused lane is junk/0
+                let d = Vec3A::from_vec4(Vec4::new(1.0, 1.0, 1.0, 0.0));
+                Vec3A::from_vec4(Vec4::new(a[0], a[1], a[2], junk)) / d
+            }
+        }
+    }
+}
+
+pub fn mkv<T: FromLanes<S, N>, S, const N: usize>(a: [S; N]) -> T {
+    T::mk(a)
+}
